@@ -262,6 +262,8 @@ inductive WEv where
   | data (wire : Bytes)
   | nack | timeout | canceled
   | connect (routes : List Nat)
+  /-- the connection is lost -/
+  | down
   deriving DecidableEq, Repr, Inhabited
 
 def absEv (H : Bytes → Bytes) : WEv → Option Ev
@@ -271,6 +273,7 @@ def absEv (H : Bytes → Bytes) : WEv → Option Ev
   | .timeout => some (.reply .timeout)
   | .canceled => some (.reply .canceled)
   | .connect rs => some (.connect rs)
+  | .down => some .down
 
 /-- the composed run: final state, trace of the state machine, and the wires it put on the face -/
 def runW (cfg : Cfg) (env : Env) (w : Wire) (s : St) (evs : List WEv) :
